@@ -1554,6 +1554,57 @@ class MeshRegion:
         # sin(beta) = cos(pi/2 - beta) = e_x.e_y = delta_x.delta_y
         self.sinBeta.ylow = delta_x[0] * delta_y[0] + delta_x[1] * delta_y[1]
 
+        # for xlow points
+        #################
+
+        # vector between the cell centres either side of the x-face, i.e. from i-1 to i.
+        # At a radial boundary of the grid, where there is no neighbouring region, use
+        # the vector between the boundary face and the nearest cell centre instead
+        delta_x = [
+            numpy.zeros([self.nx + 1, self.ny]),
+            numpy.zeros([self.nx + 1, self.ny]),
+        ]
+        inner = self.getNeighbour("inner")
+        outer = self.getNeighbour("outer")
+        for component, name in enumerate(["Rxy", "Zxy"]):
+            this = getattr(self, name)
+            delta_x[component][1:-1, :] = this.centre[1:, :] - this.centre[:-1, :]
+            if inner is not None:
+                delta_x[component][0, :] = (
+                    this.centre[0, :] - getattr(inner, name).centre[-1, :]
+                )
+            else:
+                delta_x[component][0, :] = this.centre[0, :] - this.xlow[0, :]
+            if outer is not None:
+                delta_x[component][-1, :] = (
+                    getattr(outer, name).centre[0, :] - this.centre[-1, :]
+                )
+            else:
+                delta_x[component][-1, :] = this.xlow[-1, :] - this.centre[-1, :]
+        # normalise to 1
+        mod_delta_x = numpy.sqrt(delta_x[0] ** 2 + delta_x[1] ** 2)
+        delta_x[0] /= mod_delta_x
+        delta_x[1] /= mod_delta_x
+
+        # unit vector in the Grad(psi) direction
+        delta_psi = [
+            self.meshParent.equilibrium.f_R(self.Rxy.xlow, self.Zxy.xlow),
+            self.meshParent.equilibrium.f_Z(self.Rxy.xlow, self.Zxy.xlow),
+        ]
+        # normalise to 1
+        mod_delta_psi = numpy.sqrt(delta_psi[0] ** 2 + delta_psi[1] ** 2)
+        delta_psi[0] /= mod_delta_psi
+        delta_psi[1] /= mod_delta_psi
+
+        # cosBeta = delta_x.delta_psi
+        self.cosBeta.xlow = delta_x[0] * delta_psi[0] + delta_x[1] * delta_psi[1]
+
+        # Rotate delta_psi 90 degrees clockwise gives unit vector in e_y direction
+        delta_y = [delta_psi[1], -delta_psi[0]]
+
+        # sin(beta) = cos(pi/2 - beta) = e_x.e_y = delta_x.delta_y
+        self.sinBeta.xlow = delta_x[0] * delta_y[0] + delta_x[1] * delta_y[1]
+
         self.tanBeta = self.sinBeta / self.cosBeta
 
     def calcZShift(self):
